@@ -19,7 +19,7 @@ from valida.datapath import DataPath
 
 META = {
     "rule": "(a) all prefix-closed path sets of <= n paths over {'a','b',0,'<k&\"'>',two 40-character keys differing in the middle,MapValue(),ListValue()} x 3 condition "
-            "assignments x 4 doc blocks; (b) a 4-rule tree x every and-combination (every order, 1-3 operands of a 13-condition "
+            "assignments x 4 doc blocks; (b) a 7-rule tree (string and integer keys with rules of their own) x every and-combination (every order, 1-3 operands of a 15-condition "
             "menu) + or / xor combinations at the root and at an inner node; every case x from_path in {none, every rule path} x "
             "nested in {False, True} x anchor_root in {None, 'root'} x heading_start_level in {1, 5}; (c) chains of 7-9 nested levels (one rule per prefix; keys and bare parts interleaved); a case is one (schema, from_path); non-trivial = the tree "
             "has >= 2 nodes and all structural, required-flag and HTML checks ran",
@@ -42,6 +42,7 @@ MENU = [
     L("ValueLength", "in_", [1, 2]), L("ValueLength", "less_than", 3), L("Value", "in_", ["x", "<v&>", 1]),
     L("Value", "allowed_keys", "a", "b", MARK, LONG1, LONG2), L("Value", "required_keys", "a", MARK, LONG2), L("Value", "keys_is_instance", str),
     L("Value", "required_keys", "b"),
+    L("Value", "required_keys", 0, "a"), L("Value", "allowed_keys", 0, 1, "a", "b"),      # integer keys named by key conditions
 ]
 DOCS = [
     None,
@@ -102,7 +103,8 @@ def cases(tier):
                 rules.append(T.rule(P(parts), cond, (), DOCS[(i + shift) % len(DOCS)]))
             out.append(("schema", tuple(rules)))
     k = 2 if tier == "quick" else 3
-    base = [((), 0), ((("prim", "a"),), 0), ((("prim", "a"), ("prim", MARK)), 2), ((("prim", "b"),), 1)]
+    base = [((), 0), ((("prim", "a"),), 0), ((("prim", "a"), ("prim", MARK)), 2), ((("prim", "b"),), 1),
+            ((("prim", 0),), 0), ((("prim", 0), ("prim", "a")), 2), ((("prim", "a"), ("prim", 0)), 3)]    # integer keys with rules of their own
     for c in and_combos(k):
         for where in (0, 1):
             rules = []
